@@ -168,7 +168,7 @@ structure RuleSpec where
   alias : Bool := false
   websocket : Bool := false
   buildOnly : Bool := false
-deriving Repr
+deriving Repr, DecidableEq
 
 /-- a bound rule (`Rule.bind` + `compile`) -/
 structure Rule where
@@ -181,7 +181,7 @@ structure Rule where
   methods : Option (List Str)
   strict : Bool
   merge : Bool
-deriving Repr
+deriving Repr, DecidableEq
 
 def Rule.endpoint (r : Rule) : Str := r.spec.endpoint
 def Rule.websocket (r : Rule) : Bool := r.spec.websocket
